@@ -170,13 +170,40 @@ def check_tables(rep, prog, m):
     tok = [(ev, g) for (k, ev, g, st) in events if k == 'write' and isinstance(ev, ast.Constant) and ev.value in ('folded', 'unfolded')]
     ok = len(tok) == 2
     det = []
+
+    def guard_truth(g, env):
+        # conjunction of the guards of an event under an assignment of the two flags (None: depends on something else)
+        def ev_(e):
+            t_ = ast.unparse(e)
+            if t_ in env:
+                return env[t_]
+            if isinstance(e, ast.UnaryOp) and isinstance(e.op, ast.Not):
+                v = ev_(e.operand)
+                return None if v is None else not v
+            if isinstance(e, ast.BoolOp):
+                vs = [ev_(v) for v in e.values]
+                if isinstance(e.op, ast.And):
+                    return False if any(v is False for v in vs) else (None if any(v is None for v in vs) else True)
+                return True if any(v is True for v in vs) else (None if any(v is None for v in vs) else False)
+            return None
+        res = True
+        for x in g:
+            if x.startswith('for '):
+                continue
+            v = ev_(ast.parse(x, mode='eval').body)
+            if v is False:
+                return False
+            if v is None:
+                res = None
+        return res
+    for M in (False, True):
+        for F in (False, True):
+            written = [ev.value for ev, g in tok if guard_truth(g, {'foldmaskinfo': M, 'self.folded': F}) is not False]
+            want = [] if not M else (['folded'] if F else ['unfolded'])
+            if written != want:
+                ok = False
+                det.append('foldmaskinfo=%s folded=%s writes %s' % (M, F, written))
     for ev, g in tok:
-        inner = g[-1]
-        pol_folded = ('not' not in inner.replace('not (', 'not(')) if 'self.folded' in inner else None
-        # guard "not self.folded" -> writes 'unfolded'
-        neg = inner.count('not') % 2 == 1
-        expect = 'unfolded' if neg else 'folded'
-        ok = ok and 'self.folded' in inner and ev.value == expect and any('foldmaskinfo' in x and not x.startswith('not') for x in g)
         det.append('%r under %s' % (ev.value, ' and '.join(g)))
     rep.ob('R-TPL', 'to_file folding token', ok, '; '.join(det), rel, to.lineno, what="writes 'folded' iff self.folded, only with foldmaskinfo")
     # reader: sentinel set and flag
@@ -244,11 +271,13 @@ def check_tables(rep, prog, m):
                 rep.ob('R-TPL', 'to_file mask line', bool(okm), 'mask written by %s' % ast.unparse(ev)[:90], rel, ev.lineno,
                        what='mask written as integers (1 = masked), only with foldmaskinfo')
             else:
-                okd = 'ravel' in src and 'order' not in src and not g
+                okd = ('ravel' in src or 'reshape(1, -1)' in src.replace('(1,-1)', '(1, -1)')) and 'order' not in src and '.T' not in src and 'transpose' not in src and not g
                 fmts = [k2.value for k2 in ev.keywords if k2.arg == 'fmt']
                 okd = okd and fmts and 'precision' in names_in(fmts[0])
                 rep.ob('R-TPL', 'to_file data line', bool(okd), 'data written by %s' % ast.unparse(ev)[:90], rel, ev.lineno,
                        what='data written in C order on one line with the requested precision, unconditionally')
+    # (a header end written in each of two exclusive branches is one header end)
+    order = [x for i_, x in enumerate(order) if i_ == 0 or x != order[i_ - 1]]
     rep.ob('R-TPL', 'to_file line order', order == ['header-end', 'data', 'mask'], 'line-producing events in order: %s' % order, rel, to.lineno,
            what='header, data line, mask line')
     # reader consumes in the same order: readline (header loop), readline (data), readline (mask)
